@@ -562,8 +562,12 @@ def gen_lagrange(rng, n):
                       'tag': tag, 'hint': hint, 'fnarg': True})
         nqq, nr, k = rng.randint(1, 5), rng.randint(1, 5), rng.randint(1, 7)
         cf = np.array([rng.uniform(-1, 1) for _ in range(k)])
-        vals = coeffs(rng, nr, nqq, k)
-        cases.append({'module': M, 'kernel': 'flux_advection', 'args': [nqq, nr, np.full((nqq, nr), 7.25), cf, vals], 'tag': 'k=%d' % k,
+        # every third case: the caller's arrays are LARGER than the block nq x nr it asks to advect (work arrays of the maximum block
+        # size): only the block is written
+        ex = (2, 1) if it % 3 == 1 else (0, 0)
+        vals = coeffs(rng, nr + ex[1], nqq + ex[0], k)
+        cases.append({'module': M, 'kernel': 'flux_advection', 'args': [nqq, nr, np.full((nqq + ex[0], nr + ex[1]), 7.25), cf, vals],
+                      'tag': 'k=%d%s' % (k, ' arrays larger than the block' if ex[0] else ''),
                       'hint': float(np.abs(cf).sum() * np.abs(vals).max()) * 4})
     return cases
 
@@ -608,6 +612,12 @@ def gen_pol(rng, n):
         dt = target * B0 * rmin / d2 * 2
         if rng.random() < 0.3:
             dt = -dt
+        strong = (not impl) and (it // 8) % 2 == 1
+        if strong:
+            # a potential that depends on r only and a long step: the feet stay on their radius and turn by SEVERAL periods in theta
+            # (|d_r phi / r| dt / B0 of the order of 5 pi): the reduction of the angle must hold for any number of turns
+            cPhi[:, :] = cPhi[0:1, :]
+            dt = (1 if dt > 0 else -1) * 8 * np.pi * B0 * rmax * sr['hmin'] / sr['deg']
         ph = phys(rng)
         v = rng.uniform(-4, 4)
         z = lambda: np.full((nq, nr), 7.25)
@@ -617,7 +627,7 @@ def gen_pol(rng, n):
         tol = rng.choice([1e-8, 1e-10])
         gpol = float(np.abs(cPol).max()) * gain(sr, 1) * 4
         hint = max(float(np.abs(cPol).max()) * 16, 4.0)
-        tag = '%s %s nulBound=%s' % ('impl' if impl else 'expl', 'cubic-uniform' if cu else 'non-uniform', nul)
+        tag = '%s %s nulBound=%s%s' % ('impl' if impl else 'expl', 'cubic-uniform' if cu else 'non-uniform', nul, ' several turns' if strong else '')
         fns = [FN(_mod(sq), _px(sq) + '_eval_spline_2d_cross'), FN(_mod(sq), _px(sq) + '_eval_spline_2d_scalar')]
         ang = (9, 11)               # endPts_k1_q, endPts_k2_q
         if impl:
